@@ -2,6 +2,7 @@
 import MoreExec.Gen.K3
 import MoreExec.Model.BoolOp
 import MoreExec.Model.Zipper
+import MoreExec.Model.MapFut
 open MoreExec.Gen
 
 namespace Driver
@@ -68,12 +69,45 @@ def zipStep (n rem done0 idx : String) (rest : List String) : String :=
     s!"{o} {r.done} {r.remaining}"
   | [] => "?"
 
+namespace K7
+open MoreExec.MapFut
+
+def parseOutcome : String → Outcome
+  | "cancelled" => .cancelled
+  | s => if s.startsWith "ok" then .ok (nat! (s.drop 2).toString) else .err (nat! (s.drop 3).toString)
+
+/-- behaviour encodings: none | ret<n> | futok<n> | futerr<n> | futcancelled | raise<n> | same -/
+def parseBeh (s : String) : Option (Nat → FnRes) :=
+  if s = "none" then none
+  else if s = "same" then some (fun _ => .raiseSame)
+  else if s = "futcancelled" then some (fun _ => .retFut .cancelled)
+  else if s.startsWith "futok" then some (fun _ => .retFut (.ok (nat! (s.drop 5).toString)))
+  else if s.startsWith "futerr" then some (fun _ => .retFut (.err (nat! (s.drop 6).toString)))
+  else if s.startsWith "ret" then some (fun _ => .ret (nat! (s.drop 3).toString))
+  else if s.startsWith "raise" then some (fun _ => .raiseNew (nat! (s.drop 5).toString))
+  else none
+
+def showOut : Out → String
+  | .ok v => s!"ok{v}"
+  | .okFut (.ok v) => s!"okFut(ok{v})"
+  | .okFut (.err e) => s!"okFut(err{e})"
+  | .okFut .cancelled => "okFut(cancelled)"
+  | .err e => s!"err{e}"
+  | .typeError => "typeError"
+  | .cancelled => "cancelled"
+
+def run (flat fn ef d : String) : String :=
+  let r := resolve ⟨flat = "1", parseBeh fn, parseBeh ef⟩ (parseOutcome d)
+  s!"{showOut r.out} fn={r.fnCalls} err={r.errCalls}"
+end K7
+
 def oracleLine (ws : List String) : String :=
   match ws with
   | "k5.fold" :: "or" :: outId :: ids :: rest => boolFold .or outId ids rest
   | "k5.fold" :: "and" :: outId :: ids :: rest => boolFold .and outId ids rest
   | "k5.update" :: "or" :: outId :: ids :: d :: rest => boolUpdate .or outId ids d rest
   | "k5.update" :: "and" :: outId :: ids :: d :: rest => boolUpdate .and outId ids d rest
+  | ["k7.resolve", flat, fn, ef, d] => K7.run flat fn ef d
   | "k6.run" :: n :: rest => zipRun n rest
   | "k6.step" :: n :: rem :: d :: idx :: rest => zipStep n rem d idx rest
   | "k3.partition" :: now :: rest =>
